@@ -150,3 +150,16 @@ def path_args_of(universe, req) -> dict:
         return {}
     names = [seg[1:-1] for seg in op.path.split("/") if seg.startswith("{")]
     return {n: unquote(a) for n, a in zip(names, args)}
+
+
+def strict_eq(a, b) -> bool:
+    """JSON equality: 1, 1.0 and true are three different values (Python's == says they are equal)."""
+    if isinstance(a, bool) or isinstance(b, bool):
+        return isinstance(a, bool) and isinstance(b, bool) and a == b
+    if isinstance(a, (int, float)) and isinstance(b, (int, float)):
+        return type(a) is type(b) and a == b
+    if isinstance(a, dict) and isinstance(b, dict):
+        return a.keys() == b.keys() and all(strict_eq(a[k], b[k]) for k in a)
+    if isinstance(a, list) and isinstance(b, list):
+        return len(a) == len(b) and all(strict_eq(x, y) for x, y in zip(a, b))
+    return type(a) is type(b) and a == b
